@@ -566,7 +566,12 @@ def gen_ops(rng, paths, slots, tier, light=False, slow=False):
     kinds = [1, 2, 1, 2, 3, 0, 6] + kinds_bad
     for pat in malformed_patterns(rng, 700 if thorough else 215, devs, slow):
         ops.append(("sel %d %s %d" % (rng.choice(kinds), hexs(pat), len(pat)), None))
-    return ops
+    # history independence: a share of the selections is repeated after other selections in the same process (`selh`)
+    extra = []
+    for op, meta in ops:
+        if op.startswith("sel ") and " NULL " not in op and rng.random() < 0.3:
+            extra.append(("selh " + op[4:], meta))
+    return ops + extra
 
 
 # ------------------------------------------------------------------ running one configuration
@@ -604,6 +609,8 @@ def run_config(paths, slots, ops, tag, watchdog_ms=2000, timeout=900):
         if r == "timeout":
             res["timeouts"] += 1
             continue
+        if op.startswith("selh "):
+            op = "sel " + op[5:]
         if op.startswith("sel "):
             head, _, tail = r.partition(" | ")
             if tail.startswith("inconclusive"):
